@@ -755,6 +755,34 @@ impl SchedX {
                     finish: Box::new(move || final_check(c3, dir, Some(1), &[])),
                 }
             }
+            // two rollbacks racing (three commits logged): both are served, one after the other
+            "H8rr" => {
+                let (c, dir) = self.base_ctx(&[0, 1, 2]);
+                let (c1, c2) = (c.clone(), c.clone());
+                let mk = |c: Arc<Ctx>, tag: &'static str| -> Box<dyn FnOnce() + Send> {
+                    Box::new(move || {
+                        match c.n.rollback(1) {
+                            Ok(()) => c.ob(format!("{tag}:ok")),
+                            Err(e) => c.err(format!("{tag}: rollback(1) failed: {e:#}")),
+                        }
+                        drop(c);
+                    })
+                };
+                Execution {
+                    threads: vec![mk(c1, "B1"), mk(c2, "B2")],
+                    finish: Box::new(move || {
+                        let r = final_check(c, dir.clone(), Some(0), &[])?;
+                        // nothing is left to roll back to beyond the first commit; one more step back
+                        // (to the empty store) is still logged
+                        let n = reopen_retry(&dir)?;
+                        n.rollback(1).map_err(|e| format!("a third rollback(1) failed: {e:#}"))?;
+                        if n.read(ka()).unwrap().is_some() {
+                            return Err("after three rollbacks of three commits a key is still there".into());
+                        }
+                        Ok(r)
+                    }),
+                }
+            }
             // a blocking commit ∥ a session that is being FINISHED (its merkle update is running):
             // the commit must wait until finish() has returned — the committed state may not
             // change between begin_session and the return of finish, and the witness must be
@@ -1915,8 +1943,8 @@ impl Engine for SchedX {
         let thorough = tier == "thorough";
         let (harnesses, rule): (Vec<&str>, &str) = match prop {
             "C15" => (
-                vec!["H1", "H2", "H3", "H3nb", "H3ov", "H4", "H5", "H6", "H6w", "H6r", "H7", "H8", "H8ov", "H8r", "H9"],
-                "schedx: closed harnesses of 2–3 real threads on two colliding keys (same value leaf, same merkle page), values stamped with the writer's version, rollback enabled: H1 reader∥blocking writer; H2 reader∥non-blocking writer (prepared changeset, retried blocking when handed back); H3/H3nb/H3ov two writers with changesets on one base (blocking / non-blocking / overlay) followed by reopen and rollback(1); H4 reader∥rollback; H5 reader∥writer∥writer; H6 one thread with two overlapping sessions∥writer; H6w one thread, warm-up on and one commit worker, two overlapping sessions, the second one finished while the first is alive; H6r one thread, rollback enabled, three overlapping sessions, the third one finished while the first two are alive; H8/H8ov/H8r a changeset or overlay prepared on the current state ∥ rollback(1) [∥ a reader]: the writers serialise — commit then rollback (final = the state before the commit, one further rollback possible) or rollback then commit (the changeset is refused, final = the rolled-back state); H9 a prepared changeset in a blocking commit ∥ a witnessed session being finished (point before the merkle join): the committed root may not change between begin_session and the return of finish(), every witnessed path verifies against the session's previous root, exactly one of the two wins; H7 two threads proving different keys (present and absent) through ONE shared session on a cold store, with scheduling points at every I/O submission and every wait for a completion of the calling threads (the scheduler lets outstanding reads complete before it decides, so the enabled set does not depend on I/O speed). EVERY schedule of the visible points (API lock acquisitions with parking_lot's writer-preferring FIFO fairness modelled in the scheduler, the read-transaction wait, harness points between session operations) with ≤c preemptions is executed on a fresh store, c = 0,1,2 (thorough 3). Oracle per schedule: terminates (no enabled thread = deadlock); all reads and the proof of one session agree with one committed version and with session.prev_root(); exactly one of two competing changesets wins; final state, root and state after reopen are the winner's; rollback(1) restores the base. One case = one harness × one bound; evaluations = cases, transitions = scheduler steps, states = distinct schedules (trace digests).",
+                vec!["H1", "H2", "H3", "H3nb", "H3ov", "H4", "H5", "H6", "H6w", "H6r", "H7", "H8", "H8ov", "H8r", "H8rr", "H9"],
+                "schedx: closed harnesses of 2–3 real threads on two colliding keys (same value leaf, same merkle page), values stamped with the writer's version, rollback enabled: H1 reader∥blocking writer; H2 reader∥non-blocking writer (prepared changeset, retried blocking when handed back); H3/H3nb/H3ov two writers with changesets on one base (blocking / non-blocking / overlay) followed by reopen and rollback(1); H4 reader∥rollback; H5 reader∥writer∥writer; H6 one thread with two overlapping sessions∥writer; H6w one thread, warm-up on and one commit worker, two overlapping sessions, the second one finished while the first is alive; H6r one thread, rollback enabled, three overlapping sessions, the third one finished while the first two are alive; H8/H8ov/H8r a changeset or overlay prepared on the current state ∥ rollback(1) [∥ a reader]: the writers serialise — commit then rollback (final = the state before the commit, one further rollback possible) or rollback then commit (the changeset is refused, final = the rolled-back state); H8rr two rollback(1) racing after three commits (both served, then a third one empties the store); H9 a prepared changeset in a blocking commit ∥ a witnessed session being finished (point before the merkle join): the committed root may not change between begin_session and the return of finish(), every witnessed path verifies against the session's previous root, exactly one of the two wins; H7 two threads proving different keys (present and absent) through ONE shared session on a cold store, with scheduling points at every I/O submission and every wait for a completion of the calling threads (the scheduler lets outstanding reads complete before it decides, so the enabled set does not depend on I/O speed). EVERY schedule of the visible points (API lock acquisitions with parking_lot's writer-preferring FIFO fairness modelled in the scheduler, the read-transaction wait, harness points between session operations) with ≤c preemptions is executed on a fresh store, c = 0,1,2 (thorough 3). Oracle per schedule: terminates (no enabled thread = deadlock); all reads and the proof of one session agree with one committed version and with session.prev_root(); exactly one of two competing changesets wins; final state, root and state after reopen are the winner's; rollback(1) restores the base. One case = one harness × one bound; evaluations = cases, transitions = scheduler steps, states = distinct schedules (trace digests).",
             ),
             "C20" => (
                 vec!["O1", "O2", "O2x3", "O3", "O4", "L1", "L2", "L3", "L4", "L5", "P1", "P1k"],
